@@ -26,7 +26,7 @@ PROBES = ["finite_levels_replaced_after_construction", "near_boundary_with_ev", 
           "plugin_occupied", "world_invalid_pilot", "world_rejected_with_ev", "min_gt_zero_evse", "inf_max_evse", "advertised_inf_max",
           "finite_without_zero", "finite_unsorted_or_dup", "twin_evses_world", "world_resume_json", "world_advertised_value",
           "plugin_occupied_same_session_id", "world_party_scribbled_on_handed_info", "rates_given_as_one_shot_iterable", "plugin_occupied_via_network", "plugin_occupied_newcomer_after_occupants_departure", "pilot_sent_through_network", "bench_network_over_64_stations", "plugin_occupied_same_object", "near_duplicate_levels",
-          "caller_keeps_the_rate_list_it_passed", "caller_edited_its_own_rate_list", "subclass_overrides_rate_properties", "last_accepted_pilot_sent_again_after_rerating"]
+          "caller_keeps_the_rate_list_it_passed", "caller_edited_its_own_rate_list", "subclass_overrides_rate_properties", "last_accepted_pilot_sent_again_after_rerating", "bench_json_restart"]
 FAULT_DIMENSION = ("misbehaving scheduler: out-of-set pilot at an arbitrary call of a run (terminal fault, judged on the rejected station); "
                    "scheduler crash + JSON save/load (advertised limits must still be each station's own)")
 REAL_VS_STUB = "real: EVSE, DeadbandEVSE, FiniteRatesEVSE, EV, Battery models, ChargingNetwork, Interface, Simulator; ours: probing party"
@@ -91,6 +91,8 @@ def gen(rs, tier):
         return sc
     r = sub(rs, "evse")
     kind = r.choice(["cont", "cont", "dead", "dead", "finite", "finite", "finite", "cont_inf", "cont_min", "cont_neg"])
+    if sub(rs, "zero_max").random() < 0.04:
+        kind = "cont_zero"          # a station taken out of service: max_rate = 0
     if kind == "cont_min":
         mn = r.choice([6, 1, round(r.uniform(0.5, 10), 2)])
         e = {"type": "EVSE", "max": r.choice([None, 32, round(mn + r.uniform(0.01, 40), 2)]), "min": mn}
@@ -133,6 +135,8 @@ def gen(rs, tier):
                 ops.append({"op": "rerate", "mode": r.choice(["cut_top", "cut_top", "cut_bottom", "append_higher"]), "u": r.random()})
                 ops.append({"op": "repeat_last_accepted"})    # the pilot that was fine a moment ago is sent again after the re-rating
             ops.append({"op": "advertised"})
+        elif k < 0.93:
+            ops.append({"op": "roundtrip"})       # restart: the charger (with whatever is plugged in) is saved to JSON and loaded back
         elif k < 0.96 and ev is not None:
             ops.append({"op": "plugin", "same_id": r.random() < 0.4, "same_object": r.random() < 0.2, "via_network": r.random() < 0.5,
                         "intr_arrival": r.choice([0, 50, 100, 100, 150])})
@@ -302,6 +306,17 @@ def check(sc):
                     evse.allowable_rates = list(new)
                     e["rates"] = list(new)
                     out.probe("finite_levels_replaced_after_construction")
+                elif o == "roundtrip":
+                    if sc.get("derate") or sc.get("floor") is not None or "own_list_normalised" in sc or nfill:
+                        continue          # (subclasses defined inside this function cannot be located by the loader; keep those benches in memory)
+                    nw2_ = sut.ChargingNetwork.from_json(nw_.to_json())
+                    nw_ = nw2_
+                    evse = nw_._EVSEs["X"]
+                    cur_ev = evse.ev
+                    row_x = nw_.station_ids.index("X")
+                    out.probe("bench_json_restart")
+                    if e["type"] == "Finite" and list(evse.allowable_pilot_signals) != evse_levels(e):
+                        out.add("C13/finite_levels", "op %d: after a JSON save / load the charger advertises %s, it was built with %s" % (i, list(evse.allowable_pilot_signals), evse_levels(e)))
                 elif o == "repeat_last_accepted":
                     if last_acc[0] is not None:
                         out.probe("last_accepted_pilot_sent_again_after_rerating")
